@@ -33,7 +33,7 @@ struct Leaf {
     static DynPorts ports;
 };
 struct Mid {
-    bool en;             // enables "leaf/" (same level)
+    int en;              // enables "leaf/" (same level): a toggle (0/1) or, in some applications, an integer level (enabled iff != 0)
     Leaf leaf;
     Leaf many[3];
     Leaf *ptr;
@@ -71,7 +71,9 @@ struct LeafCfg {
 };
 struct Cfg {
     LeafCfg leaf;
-    bool mid_en_def = true;
+    int mid_en_def = 1;
+    bool en_is_int = false;      // the enabling port is an integer parameter ("en::i"), enabled iff its value is not 0
+    int en_on_value = 1;         // the non-zero level used by the exhaustive state sweep (C09)
     int mid_x_def = 0, vol_def = 100;
     int enable_placement = 0;   // 0 none, 1 "leaf/" enabled by sibling "en", 2 "leaf/" enabled by "leaf/on"
     bool has_many = true, has_ptr = true, has_top = true;
@@ -209,11 +211,11 @@ static void mid_en_cb(const char *msg, rtosc::RtData &d)
 {
     Mid *obj = (Mid *)d.obj;
     const char *args = rtosc_argument_string(msg);
-    if(!*args) { d.reply(d.loc, obj->en ? "T" : "F"); return; }
-    bool v = rtosc_argument(msg, 0).T;
+    if(!*args) { if(G->en_is_int) d.reply(d.loc, "i", obj->en); else d.reply(d.loc, obj->en ? "T" : "F"); return; }
+    int v = G->en_is_int ? rtosc_argument(msg, 0).i : (args[0] == 'T');
     if(v && !obj->en && G->enable_placement == 1) reset_leaf(obj->leaf, G->leaf);   // only when the coupling is declared (rEnabledBy)
     obj->en = v;
-    d.broadcast(d.loc, args);
+    if(G->en_is_int) d.broadcast(d.loc, "i", v); else d.broadcast(d.loc, args);
 }
 static std::function<void(const char *, rtosc::RtData &)> CB_leaf = rRecurCb(leaf), CB_many = rRecursCb(many, 3), CB_ptr = rRecurpCb(ptr), CB_x = rParamICb(x);
 #undef rObject
@@ -275,7 +277,7 @@ static inline void build(Cfg &c, Rng &r)
     for(size_t i = morder.size(); i > 1; --i) std::swap(morder[i - 1], morder[r.below(i)]);
     for(auto &n : morder) {
         Meta m;
-        if(n == "en") { m.prop("parameter").map("default", c.mid_en_def ? "true" : "false"); mp.push_back({keep(c.en_name + "::T:F"), keep(m.m), 0, mid_en_cb}); }
+        if(n == "en") { m.prop("parameter").map("default", c.en_is_int ? std::to_string(c.mid_en_def) : std::string(c.mid_en_def ? "true" : "false")); mp.push_back({keep(c.en_name + (c.en_is_int ? "::i" : "::T:F")), keep(m.m), 0, mid_en_cb}); }
         else if(n == "x") { m.prop("parameter").map("default", std::to_string(c.mid_x_def)); mp.push_back({"x::i", keep(m.m), 0, CB_x}); }
         else if(n == "leaf") { if(c.enable_placement == 1) m.map("enabled by", c.en_name); m.map("documentation", "leaf"); mp.push_back({"leaf/", keep(m.m), &Leaf::ports, CB_leaf}); }
         else if(n == "many") { m.map("documentation", "many"); mp.push_back({"many#3/", keep(m.m), &Leaf::ports, CB_many}); }
@@ -322,6 +324,8 @@ static inline void gen_cfg(Cfg &c, Rng &r)
         if(must || r.chance(0.75)) L.order.push_back(n);
     }
     c.mid_en_def = r.chance(0.7);
+    c.en_is_int = r.chance(0.3);
+    { static const int LV[] = {1, 2, 255, 256, 512, -256, 65536, -1, 257, 1024}; c.en_on_value = c.en_is_int ? LV[r.below(10)] : 1; if(c.en_is_int && c.mid_en_def) c.mid_en_def = LV[r.below(10)]; }
     c.mid_x_def = (int)r.range(-5, 5); c.vol_def = (int)r.range(0, 127);
     c.enable_placement = (int)r.below(3);
     c.has_many = r.chance(0.7); c.has_ptr = r.chance(0.5); c.has_top = r.chance(0.6);
